@@ -37,7 +37,9 @@
      PaTNotReady       `if pa.stream != nil { pa.setNotAvailable() }` -> at pa.parent.setPathNotReady(pa)
      PaDead            wg.Done(); close(pa.done)
 
-   caller c  (pathManager.AddReader / AddPublisher / Describe / APIPathsGet, or pathManager.ReloadPathConfs)
+   caller c  (pathManager.AddReader / AddPublisher / Describe / APIPathsGet, or pathManager.ReloadPathConfs; or a
+              session that holds a defs.Path and calls path.RemoveReader / RemovePublisher / APIPathsGet on it:
+              LSpawnAt p, which starts at CAtPa p)
      CStart k          at select { pm.chX <- req ; <-pm.ctx.Done() }
      CWaitPm           at `<-req.Res`
      CAtPa p           at pa.addReader(req) etc.: select { pa.chX <- req ; <-pa.ctx.Done() }
@@ -150,8 +152,11 @@ Definition wf_script (w : list cid) (sc : list act) : bool :=
 Inductive handled := HErr | HPath (p : pid) | HNew (isc : list act).
 
 Inductive label :=
-(* environment: arrival of a new call, expiry of a timer of a path, pathManager.close() being called *)
+(* environment: arrival of a new call, a new static path (pathManager.initialize / doReloadConf: createPath), expiry
+   of a timer of a path, pathManager.close() being called *)
 | LSpawn (k : ckind)
+| LSpawnAt (p : pid)
+| LCreate (isc : list act)
 | LTimer (p : pid) (sc : list act)
 | LCancel
 (* path manager *)
@@ -182,7 +187,7 @@ Inductive label :=
 | LClDone.                       (* pm.wg.Wait() returns *)
 
 Definition internal (l : label) : bool :=
-  match l with LSpawn _ | LTimer _ _ | LCancel => false | _ => true end.
+  match l with LSpawn _ | LSpawnAt _ | LCreate _ | LTimer _ _ | LCancel => false | _ => true end.
 
 Definition is_dead (x : path_st) : bool := match ppc x with PaDead => true | _ => false end.
 
@@ -193,6 +198,20 @@ Definition step (esc : bool) (s : state) (l : label) : option state :=
   | LSpawn k =>
       Some {| pm_ctx := pm_ctx s; pm := pm s; np := np s; paths := paths s; nc := S (nc s);
               callers := upd (callers s) (nc s) (CStart k); closer := closer s |}
+  | LSpawnAt p =>
+      if p <? np s
+      then Some {| pm_ctx := pm_ctx s; pm := pm s; np := np s; paths := paths s; nc := S (nc s);
+                   callers := upd (callers s) (nc s) (CAtPa p); closer := closer s |}
+      else None
+  | LCreate isc =>
+      match pm s, answers isc with
+      | PmIdle, [] | PmClose [], [] =>
+          if pm_calls isc <=? max_pm_calls
+          then Some {| pm_ctx := pm_ctx s; pm := pm s; np := S (np s); paths := upd (paths s) (np s) (new_path isc);
+                       nc := nc s; callers := callers s; closer := closer s |}
+          else None
+      | _, _ => None
+      end
   | LTimer p sc =>
       let x := paths s p in
       match ppc x, script x with
